@@ -54,7 +54,7 @@ def run(tier, seed, argv):
     jobs = jobs_for(tier)
     # seeded sample of the option product, every sampled configuration with symbolic presence and the frame checks
     jobs += [dict(id=f"r{i}", module="checks.c04", factory="make", cfg=c)
-             for i, c in enumerate(c01.random_cfgs(seed, 6 if tier == "quick" else 40, precond=("shampoo", "soap_eigh", "soap_qr"), tier=tier, presence="symbolic", frame_checks=True))]
+             for i, c in enumerate(c01.random_cfgs(seed, 6 if tier == "quick" else 200, precond=("shampoo", "soap_eigh", "soap_qr"), tier=tier, presence="symbolic", frame_checks=True))]
     if argv:
         jobs = [j for j in jobs if j["id"] in argv]
     rep.bounds = dict(configs=len(jobs), parameters="2-3 (two of equal shape), up to 2 groups", steps="T<=3 re-based (quick) / <=5 (thorough)",
